@@ -179,8 +179,8 @@ Theorem player_pdur_times : forall c K lib, fix_pdur_event c = true -> fix_pdur_
 Proof. exact player_pdur_times_l. Qed.
 
 (* Ppar, full strength.  Children: any stream states cs whose streams denote fixed event lists ls (denotes: the events
-   do not depend on the Pmono node counter -- e.g. Pbind, see two_voices_denote), with numeric deltas >= 0; the input
-   event has no 'stretch' key (Event.silent multiplies the filling rests by it, as sclang does); fuel covers one step
+   do not depend on the Pmono node counter -- e.g. Pbind, see two_voices_denote), with numeric deltas >= 0; any input event (repaired
+   code: the filling rests are not stretched a second time); fuel covers one step
    per event plus one per child.  Then the stream of Ppar is the list of the po_ev of a tagged run outs in which
    - restricted to child ch (of_child), the outputs are ch's own events (up to the delta Ppar rewrites), each at ch's own
      time 0 + the sum of ch's own preceding deltas (ctimeline) -- all of them, in order;
@@ -193,7 +193,7 @@ Proof. exact player_pdur_times_l. Qed.
    Induction over the run with an invariant on C09's sorted-list specification (sorted, insert_by_sorted,
    insert_by_perm, sorted_head_le of proofs/C09_order.v). *)
 Theorem ppar_preserves_child_timelines : forall c K lib dep inev cs ls fuel mc,
-  (0 < dep)%nat -> get "stretch" inev = None -> lists_ok K ls -> Forall2 (denotes c K lib dep inev) cs ls ->
+  fix_ppar_rest c = true -> (0 < dep)%nat -> lists_ok K ls -> Forall2 (denotes c K lib dep inev) cs ls ->
   (mupto (List.length ls) ls <= fuel)%nat ->
   let out := stream_run c K lib fuel (S dep) (SPar false spec_init (F 0) cs) inev mc in
   exists outs,
@@ -208,7 +208,7 @@ Proof. exact ppar_preserves_child_timelines_l. Qed.
 (* player o Ppar: the entries of the player's log that come from child ch (sel) are ch's events, the m-th one played at
    start + the sum of ch's own m preceding deltas *)
 Theorem player_ppar_times : forall c K lib dep inev cs ls fuel mc now,
-  (0 < dep)%nat -> get "stretch" inev = None -> lists_ok K ls -> Forall2 (denotes c K lib dep inev) cs ls ->
+  fix_ppar_rest c = true -> (0 < dep)%nat -> lists_ok K ls -> Forall2 (denotes c K lib dep inev) cs ls ->
   (mupto (List.length ls) ls <= fuel)%nat ->
   let outs := par_run K inev fuel (par_init (List.length ls)) (F 0) ls in
   let log := evs (player c K lib fuel (S dep) (SPar false spec_init (F 0) cs) inev mc now) in
@@ -218,7 +218,7 @@ Proof. exact player_ppar_times_l. Qed.
 
 (* ... every entry of that log being the corresponding output of the merge, at start + its merge time *)
 Theorem player_ppar_log : forall c K lib dep inev cs ls fuel mc now,
-  (0 < dep)%nat -> get "stretch" inev = None -> lists_ok K ls -> Forall2 (denotes c K lib dep inev) cs ls ->
+  fix_ppar_rest c = true -> (0 < dep)%nat -> lists_ok K ls -> Forall2 (denotes c K lib dep inev) cs ls ->
   let outs := par_run K inev fuel (par_init (List.length ls)) (F 0) ls in
   stream_run c K lib fuel (S dep) (SPar false spec_init (F 0) cs) inev mc = map po_ev outs /\
   Forall2 (logged now) (evs (player c K lib fuel (S dep) (SPar false spec_init (F 0) cs) inev mc now)) outs.
@@ -263,14 +263,12 @@ Theorem pdelta_rest_delta : forall K t inev tq, get "stretch" inev = None -> val
   (exists n, t = VNum n) -> delta_q K (silent t inev) == tq /\ is_rest (silent t inev) = true.
 Proof. exact pdelta_rest_delta_l. Qed.
 
-(* FALSE of the faithful model (and of SuperCollider's Ppar + Event.silent): with a 'stretch' key in the event given to Ppar
-   the filling rests are stretched twice; voice 0's second event, at its own time 2, is played at 3.  This is why
-   ppar_preserves_child_timelines assumes get "stretch" inev = None. *)
+(* the released Ppar (and SuperCollider's Ppar + Event.silent) stretched its filling rests twice when its input event
+   carries a 'stretch' key: voice 0's second event, at its own time 2, was played at 3; repaired: at 2.  The Ppar theorems
+   above hold for ANY input event of the repaired code (fix_ppar_rest). *)
 Theorem ppar_stretched_input_refuted :
-  map (fun b => (Qred (fst b), voice b))
-      (filter (fun b => match snd b with MNew _ _ _ _ _ => true | _ => false end)
-              (sends patched K0 the_lib 0 20 6 stretch_witness [("stretch"%string, VNum (I 2)); ("legato"%string, VNum (F (1 # 2)))] 0))
-  = [(0, 0%Z); (0, 1%Z); (3, 0%Z)].
+  voices (sends released_ppar K0 the_lib 0 20 6 stretch_witness stretch_proto 0) = [(0, 0%Z); (0, 1%Z); (3, 0%Z)] /\
+  voices (sends patched K0 the_lib 0 20 6 stretch_witness stretch_proto 0) = [(0, 0%Z); (0, 1%Z); (2, 0%Z)].
 Proof. exact ppar_stretched_input_refuted_l. Qed.
 
 (* ---- the defects of the code as released (each is replayed on the library by harness/props/C14.py) ------------ *)
